@@ -1245,19 +1245,21 @@ class MyPyAstVisitor:
                 name = qname.split(".")[-1]
             else:
                 # In this case some types where defined in multiple modules with the same names.
-                for alias_qname in qnames:
-                    # We check if the type was defined in the same module
-                    type_path = ".".join(alias_qname.split(".")[0:-1])
+                if self.mypy_file is None:  # pragma: no cover
+                    raise TypeError("Expected mypy_file (module information), got None.")
+                module_fullname = self.mypy_file.fullname
+
+                # We check if the type was defined in the same module. A type that is defined directly in the module takes
+                # precedence over one that lies deeper in it (a nested class, or a class of a submodule if the module is a
+                # package). The names are sorted, so that the result does not depend on the order of the set.
+                candidates = sorted(qnames)
+                in_module = [it for it in candidates if ".".join(it.split(".")[0:-1]) == module_fullname]
+                # The path has to lie in the module, a module "pkg.ab" is not part of "pkg.a"
+                below_module = [it for it in candidates if it.startswith(f"{module_fullname}.")]
+                for alias_qname in in_module + below_module:
                     name = alias_qname.split(".")[-1]
-
-                    if self.mypy_file is None:  # pragma: no cover
-                        raise TypeError("Expected mypy_file (module information), got None.")
-
-                    # The path has to be the module itself or lie in it, a module "pkg.ab" is not part of "pkg.a"
-                    module_fullname = self.mypy_file.fullname
-                    if type_path == module_fullname or type_path.startswith(f"{module_fullname}."):
-                        qname = alias_qname
-                        break
+                    qname = alias_qname
+                    break
 
         return name, qname
 
